@@ -122,7 +122,7 @@ def audit(prop, theorems):
             res[t] = {"ok": False, "axioms": None, "stmt_sha": None, "why": "theorem not found / did not elaborate"}
             continue
         stmt, ax = m.group(1), m.group(2)
-        if "error" in stmt.lower() and "unknown" in stmt.lower():
+        if re.search(r"error: .*[Uu]nknown (constant|identifier)", stmt) or re.search(r"[Uu]nknown (constant|identifier) `", stmt):
             res[t] = {"ok": False, "axioms": None, "stmt_sha": None, "why": "unknown constant"}
             continue
         stmt_norm = re.sub(r"\s+", " ", stmt).strip()
